@@ -1,4 +1,7 @@
-import GoatProofs.Lemmas.C08MarshalEC
+import GoatProofs.Lemmas.C08Oct
+import GoatProofs.Lemmas.C08Okp
+import GoatProofs.Lemmas.C08Ecdh
+import GoatProofs.Lemmas.C08RsaParse
 /-
 C08 — JWK output is the registered representation and round-trips losslessly.
 See docs/C08.md.  `o` is an arbitrary oracle; `Laws o` are the base64 inverse laws; `EcOK`,
@@ -26,11 +29,6 @@ theorem consts_are_registered :
 theorem spec_octets (n v : Nat) :
     (v < 256 ^ n → IsFixedOctets n (i2osp n v) v) ∧ IsMinimalOctets (minOctets v) v :=
   ⟨i2osp_fixed n v, minOctets_minimal v⟩
-
-/-- the key after a round trip: the same key, `Raw` = the parsed object, and the certificate
-    thumbprints filled in from the chain when they were not set -/
-def restored (o : Oracle) (k : Key) (m : Obj) : Key :=
-  { k with raw := m, x5t := thumbVal o "sha1" k.x5t k.x5c, x5tS256 := thumbVal o "sha256" k.x5tS256 k.x5c }
 
 theorem ecKey_restored (o : Oracle) (k : Key) (m : Obj) (c : GoCurve) (x y : Nat) (d : Option Nat)
     (hk : IsEcKey k c x y d) (hkty : k.kty = jwa.EC) (hx : k.x5c ≠ some []) :
@@ -80,177 +78,185 @@ theorem jwk_parse_of_spec_ec (o : Oracle) (L : Laws o) (cp : CP) (extras : Obj) 
       .ok (ecKey (cp.key (specEncode (encS o) (encStdS o) (.ec sc x y d) cp.toSpec extras) jwa.EC) c x y d) :=
   parse_ec o L _ extras cp c sc hsc x y d (fun _ _ => rfl) hraw K E hcert
 
-/-! ## RSA public keys: minimal-length `n` and `e` -/
+/-! ## RSA: minimal-length `n` and `e` -/
 
-/-- closed form of the object `MarshalJSON` serialises for an RSA public key -/
-def rsaPubObj (o : Oracle) (k : Key) (n e : Nat) : Obj :=
-  oset (oset (oset (commonObj o k.raw k) "kty" (.str jwa.RSA)) "e" (.str (encS o (minBE e))))
-    "n" (.str (encS o (minBE n)))
-
-theorem marshal_rsa_pub (o : Oracle) (k : Key) (n e : Nat) (hp : k.pub = .rsa ⟨n, e⟩) (hq : k.priv = .none)
-    (hn : 0 < n) (he : 2 ≤ e) (he' : e ≤ 2147483647) :
-    (marshal k).run o = .ok (rsaPubObj o k n e) := by
-  have h1 : n ≠ 0 := by omega
-  have h2 : ¬ ((e : Int) < 2 ∨ (e : Int) > 2147483647) := by omega
-  unfold marshal
-  simp only [PO.run_bind, run_encodeCommon, hp, hq]
-  simp [encodeMaterial, encodeRsa, validateRsaPub, h1, h2, rsaPubObj]
-
-/-- **RSA public keys: the emitted object is the registered representation**; in particular `e` and
-    `n` are base64url of the MINIMAL-length big-endian octets (no leading zero octet, for every
-    exponent 2 ≤ e < 2^31 — including those whose bit length is a multiple of 8). -/
-theorem jwk_marshal_is_registered_rsa_pub (o : Oracle) (k : Key) (n e : Nat) (hp : k.pub = .rsa ⟨n, e⟩)
+/-- **RSA public keys**: `e` and `n` are base64url of the MINIMAL-length big-endian octets (no leading
+    zero octet), for every exponent 2 ≤ e < 2^31 — including those whose bit length is a multiple of 8. -/
+theorem rsa_pub_minimal (o : Oracle) (k : Key) (n e : Nat) (hp : k.pub = .rsa ⟨n, e⟩)
     (hq : k.priv = .none) (hn : 0 < n) (he : 2 ≤ e) (he' : e ≤ 2147483647) :
     ∃ m, (marshal k).run o = .ok m ∧
-      (∀ name, Wire.lookup name m =
-        Wire.lookup name (specEncode (encS o) (encStdS o) (.rsa n e none) (specParams o k) k.raw)) ∧
       (∃ be bn, Wire.lookup "e" m = some (.str (encS o be)) ∧ IsMinimalOctets be e ∧
                 Wire.lookup "n" m = some (.str (encS o bn)) ∧ IsMinimalOctets bn n) := by
-  refine ⟨_, marshal_rsa_pub o k n e hp hq hn he he', ?_, ?_⟩
-  · intro name
-    unfold rsaPubObj
-    simp only [lookup_oset]
-    by_cases h1 : name = "n"
-    · subst h1; simp [specEncode, materialMembers, Wire.lookup, mKty, mN, minOctets_eq]
-    by_cases h2 : name = "e"
-    · subst h2; simp [specEncode, materialMembers, Wire.lookup, mKty, mN, mE, minOctets_eq]
-    by_cases h3 : name = "kty"
-    · subst h3; simp [specEncode, Wire.lookup, mKty, KeyMaterial.kty, ktyRSA]; decide
-    rw [if_neg h1, if_neg h2, if_neg h3, lookup_commonObj _ _ _ _ h3]
-    simp [specEncode, materialMembers, Wire.lookup, mKty, mN, mE, lookup_append, h1, h2, h3]
-  · refine ⟨minOctets e, minOctets n, ?_, minOctets_minimal e, ?_, minOctets_minimal n⟩
-    · simp [rsaPubObj, lookup_oset, minOctets_eq]
-    · simp [rsaPubObj, lookup_oset, minOctets_eq]
-
-/-! ## RSA private keys with any number of primes (RFC 7518 §6.3.2, incl. "oth") -/
-
-/-- the (r, d, t) triples of the spec from the Go representation: CRTValues (Exp, Coeff, R) give d and t,
-    the prime itself comes from `Primes[i+2]` (CRTValue.R is the product of the earlier primes) -/
-def specOth : List (Nat × Nat × Nat) → List Nat → List (Nat × Nat × Nat)
-  | (exp, coeff, _) :: rest, r :: primes => (r, exp, coeff) :: specOth rest primes
-  | _, _ => []
-
-theorem run_encodeOth (o : Oracle) (crt : List (Nat × Nat × Nat)) (primes : List Nat) :
-    (encodeOth crt primes).run o = .ok ((specOth crt primes).map (othElement (encS o))) := by
-  induction crt generalizing primes with
-  | nil => simp [encodeOth, specOth]
-  | cons c rest ih =>
-    obtain ⟨exp, coeff, r0⟩ := c
-    cases primes with
-    | nil => simp [encodeOth, specOth]
-    | cons r ps => simp [encodeOth, specOth, ih, othElement, minOctets_eq]
-
-/-- closed form of the object `MarshalJSON` serialises for an RSA private key with precomputed values -/
-def rsaPrivObj (o : Oracle) (k : Key) (n e d p q : Nat) (rs : List Nat) (pre : RsaPre) : Obj :=
-  osetOpt
-    (oset (oset (oset (oset (oset (oset (rsaPubObj o k n e)
-      "d" (.str (encS o (minBE d)))) "p" (.str (encS o (minBE p)))) "q" (.str (encS o (minBE q))))
-      "dp" (.str (encS o (minBE pre.dp)))) "dq" (.str (encS o (minBE pre.dq)))) "qi" (.str (encS o (minBE pre.qi))))
-    "oth" (if specOth pre.crt rs = [] then none else some (.arr ((specOth pre.crt rs).map (othElement (encS o)))))
-
-/-- the RSA validation oracle accepts the key; its primes are pairwise coprime; one CRT value per extra prime -/
-structure RsaOK (o : Oracle) (n e d p q : Nat) (rs : List Nat) (pre : RsaPre) : Prop where
-  n0 : 0 < n
-  e2 : 2 ≤ e
-  e31 : e ≤ 2147483647
-  valid : (o ⟨"jwk.rsa.validate", [.int n, .int e, .int d,
-      .arr ((p :: q :: rs).map fun (x : Nat) => Wire.int (x : Int))]⟩).asBool = true
-  coprime : pairwiseCoprime (p :: q :: rs) = true
-  crt : pre.crt.length = rs.length
-
-theorem marshal_rsa_priv (o : Oracle) (k : Key) (n e d p q : Nat) (rs : List Nat) (pre : RsaPre)
-    (hp : k.pub = .rsa ⟨n, e⟩) (hq : k.priv = .rsa ⟨n, e⟩ d (p :: q :: rs) (some pre))
-    (R : RsaOK o n e d p q rs pre) :
-    (marshal k).run o = .ok (rsaPrivObj o k n e d p q rs pre) := by
-  have h1 : n ≠ 0 := by have := R.n0; omega
-  have h2 : ¬ ((e : Int) < 2 ∨ (e : Int) > 2147483647) := by have := R.e2; have := R.e31; omega
-  have hv : (validateRsaPriv ⟨n, e⟩ d (p :: q :: rs)).run o = .ok () := by
-    have hl2 : ¬ ((p :: q :: rs).length < 2) := by simp
-    unfold validateRsaPriv rsaValidateQ
-    simp only [hl2, if_false, PO.run_bind, PO.run_query, PO.run_pure]
-    rw [R.valid]
-    simp [R.coprime]
-  have hl : ¬ (pre.crt.length ≠ (p :: q :: rs).length - 2) := by simp [R.crt]
-  unfold marshal
-  simp only [PO.run_bind, run_encodeCommon, hp, hq]
-  simp only [encodeMaterial, encodeRsa, PO.run_bind, validateRsaPub, hv]
-  simp only [encodeRsaCrt, PO.run_bind, PO.run_pure, hl, if_false, run_setBigInt, run_setBytes, run_encodeOth,
-    List.drop, List.getD]
-  by_cases ho : specOth pre.crt rs = []
-  · simp [h1, h2, ho, rsaPrivObj, rsaPubObj, osetOpt]
-  · simp [h1, h2, ho, rsaPrivObj, rsaPubObj, osetOpt]
-
-/-- **RSA private keys (2, 3, 4, … primes): the emitted object is the registered representation** —
-    every member, including each `oth[i].r/d/t`, equals the spec encoder's (minimal-length octets). -/
-theorem jwk_marshal_is_registered_rsa_priv (o : Oracle) (k : Key) (n e d p q : Nat) (rs : List Nat) (pre : RsaPre)
-    (hp : k.pub = .rsa ⟨n, e⟩) (hq : k.priv = .rsa ⟨n, e⟩ d (p :: q :: rs) (some pre))
-    (R : RsaOK o n e d p q rs pre) :
-    ∃ m, (marshal k).run o = .ok m ∧ ∀ name, Wire.lookup name m =
-      Wire.lookup name (specEncode (encS o) (encStdS o)
-        (.rsa n e (some ⟨d, p, q, some (pre.dp, pre.dq, pre.qi), specOth pre.crt rs⟩)) (specParams o k) k.raw) := by
-  refine ⟨_, marshal_rsa_priv o k n e d p q rs pre hp hq R, ?_⟩
-  intro name
-  unfold rsaPrivObj rsaPubObj
-  simp only [lookup_osetOpt, lookup_oset]
-  by_cases g0 : name = "oth"
-  · subst g0
-    by_cases ho : specOth pre.crt rs = []
-    · simp [ho, specEncode, materialMembers, othMember, Wire.lookup, mKty, mN, mE, mD, mP, mQ, mDP, mDQ, mQI, lookup_append]
-      rw [lookup_commonObj _ _ _ _ (by decide)]
-      simp [paramMembers, lookup_append, lookup_optMember, mKid, mUse, mKeyOps, mAlg, mX5u, mX5c, mX5t, mX5tS256]
-    · simp [ho, specEncode, materialMembers, othMember, Wire.lookup, mKty, mN, mE, mD, mP, mQ, mDP, mDQ, mQI, mOth, lookup_append]
-  by_cases g1 : name = "qi"
-  · subst g1; simp [specEncode, materialMembers, Wire.lookup, mKty, mN, mE, mD, mP, mQ, mDP, mDQ, mQI, minOctets_eq, lookup_append]
-  by_cases g2 : name = "dq"
-  · subst g2; simp [specEncode, materialMembers, Wire.lookup, mKty, mN, mE, mD, mP, mQ, mDP, mDQ, minOctets_eq, lookup_append]
-  by_cases g3 : name = "dp"
-  · subst g3; simp [specEncode, materialMembers, Wire.lookup, mKty, mN, mE, mD, mP, mQ, mDP, minOctets_eq, lookup_append]
-  by_cases g4 : name = "q"
-  · subst g4; simp [specEncode, materialMembers, Wire.lookup, mKty, mN, mE, mD, mP, mQ, minOctets_eq, lookup_append]
-  by_cases g5 : name = "p"
-  · subst g5; simp [specEncode, materialMembers, Wire.lookup, mKty, mN, mE, mD, mP, minOctets_eq, lookup_append]
-  by_cases g6 : name = "d"
-  · subst g6; simp [specEncode, materialMembers, Wire.lookup, mKty, mN, mE, mD, minOctets_eq, lookup_append]
-  by_cases g7 : name = "n"
-  · subst g7; simp [specEncode, materialMembers, Wire.lookup, mKty, mN, minOctets_eq]
-  by_cases g8 : name = "e"
-  · subst g8; simp [specEncode, materialMembers, Wire.lookup, mKty, mN, mE, minOctets_eq]
-  by_cases g9 : name = "kty"
-  · subst g9; simp [specEncode, Wire.lookup, mKty, KeyMaterial.kty, ktyRSA]; decide
-  rw [if_neg g0, if_neg g1, if_neg g2, if_neg g3, if_neg g4, if_neg g5, if_neg g6, if_neg g7, if_neg g8, if_neg g9,
-    lookup_commonObj _ _ _ _ g9]
-  have hoth : Wire.lookup name (othMember (encS o) (specOth pre.crt rs)) = none := by
-    unfold othMember; split <;> simp [Wire.lookup, mOth, g0]
-  simp [specEncode, materialMembers, Wire.lookup, mKty, mN, mE, mD, mP, mQ, mDP, mDQ, mQI, lookup_append, hoth,
-    g0, g1, g2, g3, g4, g5, g6, g7, g8, g9]
-
-/-- the `oth` array has one element per extra prime, in order, and element i is the encoding of
-    (r_i, d_i, t_i) = (Primes[i+2], CRTValues[i].Exp, CRTValues[i].Coeff) — no element aliases another -/
-theorem oth_elements (crt : List (Nat × Nat × Nat)) (rs : List Nat) (h : crt.length = rs.length) :
-    (specOth crt rs).length = rs.length ∧
-    ∀ i (hi : i < rs.length), (specOth crt rs)[i]? = some (rs[i], (crt[i]'(h ▸ hi)).1, (crt[i]'(h ▸ hi)).2.1) := by
-  induction crt generalizing rs with
-  | nil =>
-    cases rs with
-    | nil => simp [specOth]
-    | cons r ps => simp at h
-  | cons c rest ih =>
-    obtain ⟨exp, coeff, r0⟩ := c
-    cases rs with
-    | nil => simp at h
-    | cons r ps =>
-      have h' : rest.length = ps.length := by simpa using h
-      obtain ⟨l, g⟩ := ih ps h'
-      refine ⟨by simp [specOth, l], ?_⟩
-      intro i hi
-      cases i with
-      | zero => simp [specOth]
-      | succ j => simpa [specOth] using g j (by simpa using hi)
+  refine ⟨_, marshal_rsa_pub o k n e hp hq hn he he', minOctets e, minOctets n, ?_, minOctets_minimal e, ?_, minOctets_minimal n⟩
+  · simp [rsaPubObj, lookup_oset, minOctets_eq]
+  · simp [rsaPubObj, lookup_oset, minOctets_eq]
 
 /-- non-vacuity / regression anchor: the exponents at the octet-length boundaries have no leading
     zero octet in the model's encoding (255 ↦ ff, 256 ↦ 01 00, 65535 ↦ ff ff, 2^24−1 ↦ ff ff ff) -/
 example : minBE 255 = [0xff] ∧ minBE 256 = [1, 0] ∧ minBE 65535 = [0xff, 0xff] ∧ minBE 65536 = [1, 0, 0] ∧
     minBE 16777215 = [0xff, 0xff, 0xff] ∧ minBE 128 = [0x80] ∧ minBE 32768 = [0x80, 0] := by decide
+
+/-! ## every key type: the umbrella theorems -/
+
+/-- the private key object ParseMap builds for an EC key -/
+def ecPriv (c : GoCurve) (x y : Nat) : Option Nat → GoPriv
+  | some dv => .ecdsa ⟨c, x, y⟩ (some (dv : Int))
+  | none => .none
+
+/-- `MatOK o mat pub priv`: `mat` is a key material the validation oracles accept, and `pub` / `priv`
+    are the Go key objects `jwk.ParseMap` builds for it.  One constructor per key type of the model. -/
+inductive MatOK (o : Oracle) : KeyMaterial → GoPub → GoPriv → Prop
+  | ec (c : GoCurve) (sc : ECCurve) (x y : Nat) (d : Option Nat) :
+      specCurve c = some sc → EcOK o c x y d → MatOK o (.ec sc x y d) (.ecdsa ⟨c, x, y⟩) (ecPriv c x y d)
+  | okp (c : Okp) (x : Bytes) (d : Option Bytes) :
+      OkpOK o c x d → MatOK o (.okp (specOkp c) x d) (c.mkPub x) (okpPriv c x d)
+  | oct (b : Bytes) : MatOK o (.oct b) .none (.oct b)
+  | rsaPub (n e : Nat) : 0 < n → 2 ≤ e → e ≤ 2147483647 → MatOK o (.rsa n e none) (.rsa ⟨n, e⟩) .none
+  | rsaPriv (n e d p q : Nat) (rs : List Nat) (crt : Option (Nat × Nat × Nat)) :
+      RsaOK o n e d p q rs → (rsaPreS o n e d (p :: q :: rs)).crt.length = rs.length →
+      (crt = none ∨ crt = some ((rsaPreS o n e d (p :: q :: rs)).dp, (rsaPreS o n e d (p :: q :: rs)).dq,
+        (rsaPreS o n e d (p :: q :: rs)).qi)) →
+      MatOK o (.rsa n e (some ⟨d, p, q, crt, specOth (rsaPreS o n e d (p :: q :: rs)).crt rs⟩)) (.rsa ⟨n, e⟩)
+        (.rsa ⟨n, e⟩ d (p :: q :: rs) (some (rsaPreS o n e d (p :: q :: rs))))
+
+/-- **jwk_parse_of_members** — for EVERY key type: an object that has the registered members of the
+    spec encoding of an accepted material (and any unregistered members) parses to that key, with all
+    optional members. -/
+theorem jwk_parse_of_members (o : Oracle) (L : Laws o) (m extras : Obj) (cp : CP) (mat : KeyMaterial)
+    (pub : GoPub) (priv : GoPriv) (M : MatOK o mat pub priv)
+    (hm : HasMembers o m mat cp extras) (hcl : Clean extras) (K : CommonOK o cp)
+    (hcert : ∀ c0, cp.certs.head? = some c0 → c0.pub = pub) (hsym : pub = .none → cp.certs = []) :
+    (parseMap m).run o = .ok { cp.key m mat.kty with pub := pub, priv := priv } := by
+  cases M with
+  | ec c sc x y d hsc E =>
+    rw [parse_ec o L m extras cp c sc hsc x y d hm hcl K E hcert]
+    cases d <;> rfl
+  | okp c x d E => exact parse_okp o L m extras cp c x d hm hcl K E hcert
+  | oct b => exact parse_oct o L m extras cp b hm hcl K (hsym rfl)
+  | rsaPub n e hn he he' => exact parse_rsa_pub o L m extras cp n e hm hcl K hn he he' hcert
+  | rsaPriv n e d p q rs crt R hl hc => exact parse_rsa_priv o L m extras cp n e d p q rs crt hm hcl K R hl hc hcert
+
+/-- **jwk_parse_of_spec** — parsing the JWK the independent (RFC) encoder emits for an accepted key
+    material of ANY type, with any optional members and unregistered extras, yields that key. -/
+theorem jwk_parse_of_spec (o : Oracle) (L : Laws o) (cp : CP) (extras : Obj) (mat : KeyMaterial)
+    (pub : GoPub) (priv : GoPriv) (M : MatOK o mat pub priv) (hcl : Clean extras) (K : CommonOK o cp)
+    (hcert : ∀ c0, cp.certs.head? = some c0 → c0.pub = pub) (hsym : pub = .none → cp.certs = []) :
+    (parseMap (specEncode (encS o) (encStdS o) mat cp.toSpec extras)).run o =
+      .ok { cp.key (specEncode (encS o) (encStdS o) mat cp.toSpec extras) mat.kty with pub := pub, priv := priv } :=
+  jwk_parse_of_members o L _ extras cp mat pub priv M (fun _ _ => rfl) hcl K hcert hsym
+
+theorem specOth_nil (crt : List (Nat × Nat × Nat)) : specOth crt [] = [] := by
+  cases crt with
+  | nil => rfl
+  | cons c t => obtain ⟨a, b, c⟩ := c; rfl
+
+/-- `Supported o k mat pub priv`: `k` is a key of a supported type whose validation oracles accept it;
+    `mat` is its material as MarshalJSON represents it, `pub` / `priv` the objects a parse-back yields
+    (for RSA private keys: with `Precompute()`d values, which the key either carries already or lacks). -/
+inductive Supported (o : Oracle) (k : Key) : KeyMaterial → GoPub → GoPriv → Prop
+  | ec (c : GoCurve) (sc : ECCurve) (x y : Nat) (d : Option Nat) :
+      specCurve c = some sc → IsEcKey k c x y d → EcOK o c x y d →
+      Supported o k (.ec sc x y d) (.ecdsa ⟨c, x, y⟩) (ecPriv c x y d)
+  | okp (c : Okp) (x : Bytes) (d : Option Bytes) :
+      IsOkpKey k c x d → OkpOK o c x d → Supported o k (.okp (specOkp c) x d) (c.mkPub x) (okpPriv c x d)
+  | ecdh (ec : EcdhCurve) (c : GoCurve) (sc : ECCurve) (x y : Nat) (d : Option Nat) :
+      ecdhCurve ec = some c → specCurve c = some sc → IsEcdhKey k ec c x y d → EcOK o c x y d →
+      Supported o k (.ec sc x y d) (.ecdsa ⟨c, x, y⟩) (ecPriv c x y d)
+  | ecdhX (x : Bytes) (d : Option Bytes) :
+      IsEcdhXKey k x d → OkpOK o .x25519 x d →
+      Supported o k (.okp (specOkp .x25519) x d) (Okp.x25519.mkPub x) (okpPriv .x25519 x d)
+  | oct (b : Bytes) : IsOctKey k b → k.x5c = none → Supported o k (.oct b) .none (.oct b)
+  | rsaPub (n e : Nat) : k.pub = .rsa ⟨n, e⟩ → k.priv = .none → 0 < n → 2 ≤ e → e ≤ 2147483647 →
+      Supported o k (.rsa n e none) (.rsa ⟨n, e⟩) .none
+  | rsaPriv (n e d p q : Nat) (rs : List Nat) (pre : Option RsaPre) :
+      k.pub = .rsa ⟨n, e⟩ → k.priv = .rsa ⟨n, e⟩ d (p :: q :: rs) pre → RsaOK o n e d p q rs →
+      (rsaPreS o n e d (p :: q :: rs)).crt.length = rs.length →
+      (pre = none ∨ pre = some (rsaPreS o n e d (p :: q :: rs))) →
+      Supported o k (rsaMat n e d p q rs (effPre o n e d (p :: q :: rs) pre)) (.rsa ⟨n, e⟩)
+        (.rsa ⟨n, e⟩ d (p :: q :: rs) (some (rsaPreS o n e d (p :: q :: rs))))
+
+theorem effPre_cases (o : Oracle) (n e d p q : Nat) (rs : List Nat) (pre : Option RsaPre)
+    (hpre : pre = none ∨ pre = some (rsaPreS o n e d (p :: q :: rs))) :
+    (effPre o n e d (p :: q :: rs) pre = none ∧ rs = []) ∨
+    effPre o n e d (p :: q :: rs) pre = some (rsaPreS o n e d (p :: q :: rs)) := by
+  rcases hpre with h | h <;> subst h
+  · by_cases hr : rs = []
+    · subst hr; exact Or.inl ⟨by simp [effPre], rfl⟩
+    · exact Or.inr (by simp [effPre, hr])
+  · exact Or.inr rfl
+
+theorem Supported.matOK {o : Oracle} {k : Key} {mat : KeyMaterial} {pub : GoPub} {priv : GoPriv}
+    (S : Supported o k mat pub priv) : MatOK o mat pub priv := by
+  cases S with
+  | ec c sc x y d hsc _ E => exact .ec c sc x y d hsc E
+  | okp c x d _ E => exact .okp c x d E
+  | ecdh ec c sc x y d _ hsc _ E => exact .ec c sc x y d hsc E
+  | ecdhX x d _ E => exact .okp .x25519 x d E
+  | oct b _ _ => exact .oct b
+  | rsaPub n e _ _ hn he he' => exact .rsaPub n e hn he he'
+  | rsaPriv n e d p q rs pre _ _ R hl hpre =>
+    rcases effPre_cases o n e d p q rs pre hpre with ⟨he, hr⟩ | he
+    · subst hr
+      rw [he]
+      have := MatOK.rsaPriv (o := o) n e d p q [] none R hl (Or.inl rfl)
+      simpa [rsaMat, specOth_nil] using this
+    · rw [he]
+      have := MatOK.rsaPriv (o := o) n e d p q rs _ R hl (Or.inr rfl)
+      simpa [rsaMat] using this
+
+/-- **jwk_marshal_is_registered** — for EVERY supported key (EC P-256/P-384/P-521/secp256k1; Ed25519,
+    Ed448, X25519, X448; oct; RSA public; RSA private with 2, 3, … primes, with precomputed values or
+    with empty `Precomputed`), private or public, with any optional members: `MarshalJSON` succeeds
+    and, for every member name, the serialised object has exactly the value the spec encoder
+    (`Spec.IANA.specEncode`, written from the RFCs) prescribes — registered `kty`/`crv`, fixed-width
+    coordinates, minimal-length RSA integers, `oth`, the optional members, and the unregistered
+    members of `Raw`. -/
+theorem jwk_marshal_is_registered (o : Oracle) (k : Key) (mat : KeyMaterial) (pub : GoPub) (priv : GoPriv)
+    (S : Supported o k mat pub priv) :
+    ∃ m, (marshal k).run o = .ok m ∧ ∀ name, Wire.lookup name m =
+      Wire.lookup name (specEncode (encS o) (encStdS o) mat (specParams o k) k.raw) := by
+  cases S with
+  | ec c sc x y d hsc hk E =>
+    exact ⟨_, marshal_ec o k c x y d hk (curve_facts c sc hsc).2.2.2 E, ecObj_registered o k c sc hsc x y d⟩
+  | okp c x d hk E => exact ⟨_, marshal_okp o k c x d hk E, okpObj_registered o k c x d⟩
+  | ecdh ec c sc x y d hc hsc hk E => exact ⟨_, marshal_ecdh o k ec c hc x y d hk, ecObj_registered o k c sc hsc x y d⟩
+  | ecdhX x d hk E => exact ⟨_, marshal_ecdh_x o k x d hk, okpObj_registered o k .x25519 x d⟩
+  | oct b hk _ => exact ⟨_, marshal_oct o k b hk, octObj_registered o k b⟩
+  | rsaPub n e hp hq hn he he' => exact ⟨_, marshal_rsa_pub o k n e hp hq hn he he', rsaPubObj_registered o k n e⟩
+  | rsaPriv n e d p q rs pre hp hq R hl hpre =>
+    refine ⟨_, marshal_rsa_priv o k n e d p q rs pre hp hq R ?_, rsaPrivObj_registered o k n e d p q rs _⟩
+    intro v hv
+    rcases effPre_cases o n e d p q rs pre hpre with ⟨he, _⟩ | he
+    · rw [he] at hv; cases hv
+    · rw [he] at hv; cases hv; exact hl
+
+/-- **jwk_roundtrip** — for EVERY supported key and every combination of kid / use / key_ops / alg /
+    x5u / x5c / x5t / x5t#S256 / unregistered members: parsing what `MarshalJSON` emitted restores the
+    identical key material and parameters (`restored`: `Raw` := the object, thumbprints filled in from
+    x5c[0] when they were unset; RSA private keys come back `Precompute()`d; crypto/ecdh keys come back as the
+    ecdsa / x25519 key with the same point, public value and scalar — `pub`, `priv`). -/
+theorem jwk_roundtrip (o : Oracle) (L : Laws o) (k : Key) (mat : KeyMaterial) (pub : GoPub) (priv : GoPriv)
+    (S : Supported o k mat pub priv) (hkty : k.kty = mat.kty) (hraw : Clean k.raw) (hx : k.x5c ≠ some [])
+    (K : CommonOK o (toCP o k))
+    (hcert : ∀ c0, (k.x5c.getD []).head? = some c0 → c0.pub = pub) :
+    ∃ m, (marshal k).run o = .ok m ∧
+      (parseMap m).run o = .ok (restored o { k with pub := pub, priv := priv } m) := by
+  obtain ⟨m, hm, hreg⟩ := jwk_marshal_is_registered o k mat pub priv S
+  refine ⟨m, hm, ?_⟩
+  have hmem := hasMembers_of_registered o k m mat hx hreg
+  have hsym : pub = .none → (toCP o k).certs = [] := by
+    intro hp
+    cases S with
+    | oct b _ hx5 => simp [toCP, hx5]
+    | ec c sc x y d _ _ _ => cases hp
+    | okp c x d _ _ => cases c <;> cases hp
+    | ecdh ec c sc x y d _ _ _ _ => cases hp
+    | ecdhX x d _ _ => cases hp
+    | rsaPub n e _ _ _ _ _ => cases hp
+    | rsaPriv n e d p q rs pre _ _ _ _ _ => cases hp
+  rw [jwk_parse_of_members o L m k.raw (toCP o k) mat pub priv S.matOK hmem hraw K hcert hsym, ← hkty]
+  have := cpKey_restored o { k with pub := pub, priv := priv } m pub priv rfl rfl hx
+  exact congrArg Outcome.ok this
 
 /-! ## RFC 7638 thumbprints -/
 
@@ -346,22 +352,164 @@ theorem thumbprint_total_oct (o : Oracle) (k : Key) (b : Bytes) (hp : k.priv = .
   obtain ⟨d, hd⟩ := hj (octThumbObj o b)
   exact ⟨hashS o h d, by rw [thumbprint_oct o k b hp hq, hd]⟩
 
-/-
-FULL STATEMENTS (kept here; the theorems above prove them for the key types named in their
-suffix, the rest is covered by the correspondence run only — marked `partial` in C08.theorems):
+/-! ## RFC 7638 thumbprints, every key type -/
 
-  jwk_marshal_is_registered : ∀ supported key k (RSA incl. CRT members; EC P-256/P-384/P-521/
-      secp256k1; Ed25519/Ed448/X25519/X448; crypto/ecdh P-256/P-384/P-521/X25519; oct) whose
-      validation oracles accept it, ∃ m, (marshal k).run o = .ok m ∧
-      ∀ name, lookup name m = lookup name (specEncode (encS o) (encStdS o) (specMaterial k) (specParams o k) k.raw)
-  jwk_roundtrip   : … ∧ (parseMap m).run o = .ok (restored o (canon k) m)      (canon: ecdh ↦ ecdsa/x25519,
-      RSA precomputed values := rsa.Precompute)
-  jwk_parse_of_spec : (parseMap (specEncode … mat cp.toSpec extras)).run o = .ok (the key of mat, cp)
-  thumbprint_public_only / thumbprint_priv_eq_pub / thumbprint_total : for every key type
-Proved: all of them for EC (four curves, private and public, every optional-member combination,
-unregistered extras); thumbprint_* also for oct.  Not proved in Lean (RSA, OKP, ecdh marshal/parse;
-RSA/OKP thumbprints): the same statements are evaluated on every generated case by the harness
-(goat = model = independent RFC encoder = Spec.IANA.specEncode; parse-back of both encodings;
-RFC 7638 recomputation).
+/-- the order in which `Thumbprint` hands the required members to encoding/json: `kty` first (written by
+    encodeCommonParameters), then the public members; json.Marshal sorts them anyway -/
+def thumbOrder (l : List (String × Wire)) : List (String × Wire) :=
+  l.filter (fun p => p.1 == "kty") ++ l.filter (fun p => !(p.1 == "kty"))
+
+theorem thumbOrder_perm (l : List (String × Wire)) : (thumbOrder l).Perm l :=
+  List.filter_append_perm _ l
+
+/-- **thumbprint_rfc7638** — for EVERY supported key: `Thumbprint(h)` is the hash of encoding/json's
+    serialisation of exactly the RFC 7638 §3.2 required members of the key (RFC 8037 §2 for OKP) — `kty` and the
+    public members; no private member, no optional member, nothing from `Raw`, not the `kty` field of the key. -/
+theorem thumbprint_rfc7638 (o : Oracle) (k : Key) (mat : KeyMaterial) (pub : GoPub) (priv : GoPriv)
+    (S : Supported o k mat pub priv) (h : String) :
+    (thumbprint k h).run o =
+      (match jsonS o (thumbOrder (requiredMembers (encS o) mat)) with
+       | .bytes b => .ok (hashS o h b)
+       | _ => .err "json") := by
+  cases S with
+  | ec c sc x y d hsc hk E =>
+    obtain ⟨hname, hsize, _, _⟩ := curve_facts c sc hsc
+    have e : ecThumbObj o c x y = thumbOrder (requiredMembers (encS o) (.ec sc x y d)) := by
+      have e1 : jwa.EC = ktyEC := by decide
+      simp [ecThumbObj, thumbOrder, requiredMembers, List.filter, i2osp_eq, hname, hsize, e1]
+    rw [thumbprint_ec o k c sc hsc x y d hk E h, e]
+  | okp c x d hk E =>
+    obtain ⟨hcrv, _, _⟩ := okp_facts c
+    have htk : IsOkpKey (thumbKey k) c x none := by
+      obtain ⟨hp, hq⟩ := hk
+      refine ⟨by simp [thumbKey, hp], ?_⟩
+      cases d <;> cases c <;> simp [thumbKey, hq, okpPriv, Okp.mkPriv]
+    have E' : OkpOK o c x none := ⟨E.xlen, fun _ hh => by cases hh⟩
+    have hobj : okpObj o (thumbKey k) c x none = thumbOrder (requiredMembers (encS o) (.okp (specOkp c) x d)) := by
+      have e1 : jwa.OKP = ktyOKP := by decide
+      simp [okpObj, commonObj, thumbKey, osetOpt, oset, thumbVal, nonEmpty, thumbOrder, requiredMembers, List.filter, hcrv, e1]
+    unfold thumbprint marshalJSON
+    simp only [PO.run_bind, marshal_okp o (thumbKey k) c x none htk E', hobj, jsonMarshal, PO.run_query, jsonS]
+    cases o ⟨"json.marshal", [.obj (thumbOrder (requiredMembers (encS o) (.okp (specOkp c) x d)))]⟩ <;> simp
+  | ecdh ec c sc x y d hc hsc hk E =>
+    obtain ⟨hname, hsize, _, _⟩ := curve_facts c sc hsc
+    have htk : IsEcdhKey (thumbKey k) ec c x y none := by
+      obtain ⟨hp, hq⟩ := hk
+      refine ⟨by simp [thumbKey, hp], ?_⟩
+      cases d <;> simp [thumbKey, hq]
+    have hobj : ecObj o (thumbKey k) c x y none = thumbOrder (requiredMembers (encS o) (.ec sc x y d)) := by
+      have e1 : jwa.EC = ktyEC := by decide
+      simp [ecObj, commonObj, thumbKey, osetOpt, oset, thumbVal, nonEmpty, thumbOrder, requiredMembers, List.filter, i2osp_eq,
+        hname, hsize, e1]
+    unfold thumbprint marshalJSON
+    simp only [PO.run_bind, marshal_ecdh o (thumbKey k) ec c hc x y none htk, hobj, jsonMarshal, PO.run_query, jsonS]
+    cases o ⟨"json.marshal", [.obj (thumbOrder (requiredMembers (encS o) (.ec sc x y d)))]⟩ <;> simp
+  | ecdhX x d hk E =>
+    have htk : IsEcdhXKey (thumbKey k) x none := by
+      obtain ⟨hp, hq⟩ := hk
+      refine ⟨by simp [thumbKey, hp], ?_⟩
+      cases d <;> simp [thumbKey, hq]
+    have hobj : okpObj o (thumbKey k) .x25519 x none = thumbOrder (requiredMembers (encS o) (.okp (specOkp .x25519) x d)) := by
+      have e1 : jwa.OKP = ktyOKP := by decide
+      have e2 : Okp.x25519.crv = OKPCurve.x25519.name := by decide
+      simp [okpObj, commonObj, thumbKey, osetOpt, oset, thumbVal, nonEmpty, thumbOrder, requiredMembers, List.filter, specOkp, e1, e2]
+    unfold thumbprint marshalJSON
+    simp only [PO.run_bind, marshal_ecdh_x o (thumbKey k) x none htk, hobj, jsonMarshal, PO.run_query, jsonS]
+    cases o ⟨"json.marshal", [.obj (thumbOrder (requiredMembers (encS o) (.okp (specOkp .x25519) x d)))]⟩ <;> simp
+  | oct b hk _ =>
+    have e : octThumbObj o b = thumbOrder (requiredMembers (encS o) (.oct b)) := by
+      have e1 : jwa.Oct = ktyOct := by decide
+      simp [octThumbObj, thumbOrder, requiredMembers, List.filter, e1]
+    rw [thumbprint_oct o k b hk.1 hk.2 h, e]
+  | rsaPub n e hp hq hn he he' =>
+    have hobj : rsaPubObj o (thumbKey k) n e = thumbOrder (requiredMembers (encS o) (.rsa n e none)) := by
+      have e1 : jwa.RSA = ktyRSA := by decide
+      simp [rsaPubObj, commonObj, thumbKey, osetOpt, oset, thumbVal, nonEmpty, thumbOrder, requiredMembers, List.filter,
+        minOctets_eq, e1]
+    unfold thumbprint marshalJSON
+    simp only [PO.run_bind, marshal_rsa_pub o (thumbKey k) n e (by simp [thumbKey, hp]) (by simp [thumbKey, hq]) hn he he',
+      hobj, jsonMarshal, PO.run_query, jsonS]
+    cases o ⟨"json.marshal", [.obj (thumbOrder (requiredMembers (encS o) (.rsa n e none)))]⟩ <;> simp
+  | rsaPriv n e d p q rs pre hp hq R hl hpre =>
+    have hobj : rsaPubObj o (thumbKey k) n e =
+        thumbOrder (requiredMembers (encS o) (rsaMat n e d p q rs (effPre o n e d (p :: q :: rs) pre))) := by
+      have e1 : jwa.RSA = ktyRSA := by decide
+      simp [rsaMat, rsaPubObj, commonObj, thumbKey, osetOpt, oset, thumbVal, nonEmpty, thumbOrder, requiredMembers, List.filter,
+        minOctets_eq, e1]
+    unfold thumbprint marshalJSON
+    simp only [PO.run_bind, marshal_rsa_pub o (thumbKey k) n e (by simp [thumbKey, hp]) (by simp [thumbKey, hq]) R.n0 R.e2 R.e31,
+      hobj, jsonMarshal, PO.run_query, jsonS]
+    cases o ⟨"json.marshal", [.obj (thumbOrder (requiredMembers (encS o) (rsaMat n e d p q rs (effPre o n e d (p :: q :: rs) pre))))]⟩ <;> simp
+
+/-- **thumbprint_members** — the hashed object is a permutation of the RFC 7638 required members, which
+    encoding/json emits in lexicographic order of the names -/
+theorem thumbprint_members (o : Oracle) (mat : KeyMaterial) :
+    (thumbOrder (requiredMembers (encS o) mat)).Perm (requiredMembers (encS o) mat) := thumbOrder_perm _
+
+/-- **thumbprint_public_only** — for EVERY key type: two supported keys whose required public members
+    agree have the same thumbprint, whatever their private parts, optional members, `Raw` or `kty` fields. -/
+theorem thumbprint_public_only (o : Oracle) (k₁ k₂ : Key) (mat₁ mat₂ : KeyMaterial) (pub₁ pub₂ : GoPub)
+    (priv₁ priv₂ : GoPriv) (S₁ : Supported o k₁ mat₁ pub₁ priv₁) (S₂ : Supported o k₂ mat₂ pub₂ priv₂)
+    (hreq : requiredMembers (encS o) mat₁ = requiredMembers (encS o) mat₂) (h : String) :
+    (thumbprint k₁ h).run o = (thumbprint k₂ h).run o := by
+  rw [thumbprint_rfc7638 o k₁ mat₁ pub₁ priv₁ S₁ h, thumbprint_rfc7638 o k₂ mat₂ pub₂ priv₂ S₂ h, hreq]
+
+/-- the public half of a key material -/
+def pubMaterial : KeyMaterial → KeyMaterial
+  | .ec crv x y _ => .ec crv x y none
+  | .rsa n e _ => .rsa n e none
+  | .okp crv x _ => .okp crv x none
+  | .oct k => .oct k
+
+/-- **thumbprint_priv_eq_pub** — for EVERY key type: a private key and its public half (any supported key
+    whose material is the public part) have the same thumbprint. -/
+theorem thumbprint_priv_eq_pub (o : Oracle) (k kp : Key) (mat matp : KeyMaterial) (pub pubp : GoPub)
+    (priv privp : GoPriv) (S : Supported o k mat pub priv) (Sp : Supported o kp matp pubp privp)
+    (hpub : matp = pubMaterial mat) (h : String) :
+    (thumbprint k h).run o = (thumbprint kp h).run o := by
+  apply thumbprint_public_only o k kp mat matp pub pubp priv privp S Sp _ h
+  subst hpub
+  cases mat <;> rfl
+
+/-- **thumbprint_total** — for EVERY supported key type incl. oct: the thumbprint is available (whenever
+    the JSON serialiser delivers bytes, which it does for string-valued objects) -/
+theorem thumbprint_total (o : Oracle) (k : Key) (mat : KeyMaterial) (pub : GoPub) (priv : GoPriv)
+    (S : Supported o k mat pub priv) (h : String) (hj : ∀ m, ∃ b, jsonS o m = .bytes b) :
+    ∃ t, (thumbprint k h).run o = .ok t := by
+  obtain ⟨b, hb⟩ := hj (thumbOrder (requiredMembers (encS o) mat))
+  exact ⟨hashS o h b, by rw [thumbprint_rfc7638 o k mat pub priv S h, hb]⟩
+
+/-- **thumbprint_lexicographic** — encoding/json serialises a Go map, which has no order (law: the
+    serialisation does not depend on the order in which the model lists the members); then the thumbprint is
+    the hash of the serialisation of the required members in exactly the RFC 7638 lexicographic order. -/
+theorem thumbprint_lexicographic (o : Oracle) (k : Key) (mat : KeyMaterial) (pub : GoPub) (priv : GoPriv)
+    (S : Supported o k mat pub priv) (h : String)
+    (hmap : ∀ m m' : Obj, m.Perm m' → jsonS o m = jsonS o m') :
+    (thumbprint k h).run o =
+      (match jsonS o (requiredMembers (encS o) mat) with
+       | .bytes b => .ok (hashS o h b)
+       | _ => .err "json") := by
+  rw [thumbprint_rfc7638 o k mat pub priv S h, hmap _ _ (thumbprint_members o mat)]
+
+/-! non-vacuity: `Supported` is inhabited for every oracle (oct, RSA public) and for a toy curve oracle (EC, OKP) -/
+example (o : Oracle) : Supported o { priv := .oct [1, 2, 3] } (.oct [1, 2, 3]) .none (.oct [1, 2, 3]) :=
+  .oct _ ⟨rfl, rfl⟩ rfl
+example (o : Oracle) : Supported o { pub := .rsa ⟨35, 5⟩ } (.rsa 35 5 none) (.rsa ⟨35, 5⟩) .none :=
+  .rsaPub 35 5 rfl rfl (by decide) (by decide) (by decide)
+example : Supported (fun q => if q.name = "jwk.curve.isOnCurve" then .bool true else .none)
+    { pub := .ecdsa ⟨.p256, 1, 2⟩ } (.ec .p256 1 2 none) (.ecdsa ⟨.p256, 1, 2⟩) .none :=
+  .ec .p256 .p256 1 2 none rfl ⟨rfl, rfl⟩
+    ⟨by decide, by decide, rfl, by decide, by decide, fun _ h => by cases h⟩
+example (o : Oracle) : Supported o { pub := .ed25519 (List.replicate 32 7) }
+    (.okp .ed25519 (List.replicate 32 7) none) (.ed25519 (List.replicate 32 7)) .none :=
+  .okp .ed25519 _ none ⟨rfl, rfl⟩ ⟨by decide, fun _ h => by cases h⟩
+
+/-
+Scope of the umbrella theorems: every key type `jwk.ParseMap` can build (`MatOK`) and every Go key object MarshalJSON
+accepts (`Supported`), including `*ecdh.PrivateKey` / `*ecdh.PublicKey` on P-256, P-384, P-521 and X25519 (constructors
+`ecdh`, `ecdhX`: their JWK is that of the ECDSA resp. x25519 key with the same point / public value and scalar, and they
+parse back as such).  `Supported` demands for RSA private keys that `Precomputed` is empty or equals what `Precompute()`
+yields (a Go object with hand-made, different precomputed values is outside), and for crypto/ecdh keys the standard
+library invariants (`Bytes()` = 04 ‖ X ‖ Y fixed width; fixed-width scalar; the validation oracles accept the key).
 -/
 end C08
